@@ -18,10 +18,14 @@ PENDING = {
  "C03":"check under construction in this session (stream scenario); claimed once its quick command exists",
  "C04":"check under construction in this session (hostile scenario)",
  "C05":"check under construction in this session (proxy scenario)",
- "C18":"check under construction in this session (share scenario)",
 }
 TECH = "deterministic simulation with fault injection"
 CLAIMED = {
+ "C18": dict(cat="exploration",
+   text="2-4 tasks make calls on shared codec instances (frame, raw, segment, compressors, datacodec singletons and composite codecs) with every statement of the codec packages a seeded scheduling point; each result must equal the sequential result on the same instances, before and after. The data-race clause is covered by a supplementary -race run with real goroutines, labelled non-deterministic in the evidence",
+   ref="DESIGN.md §5 C18",
+   note="sampled interleavings at statement granularity (not memory-access granularity); vendored lz4/snappy run atomically between yields; the race-detector supplement observes executions it does not control, so its replay is best-effort",
+   tech=TECH+" (statement-level seeded interleaving of tasks on shared codec instances, result equality with sequential passes; plus race-detector stress as labelled supplement)"),
  "C15": dict(cat="exploration",
    text="seeded fault-free sessions between the real client and the real server (generated frames of every kind, all versions x compressions x auth) and between each of them and an independent raw peer that chooses the v5 segmentation; equality of what was sent and received in both directions and a specification-level wire oracle on the tapped bytes",
    ref="DESIGN.md §5 C15",
